@@ -51,9 +51,9 @@ Proof.
   rewrite Ha. cbn [bind]. eauto.
 Qed.
 
-Lemma is_likely_json_g_ok guard (s : bytes) : 1 <= guard -> exists b, is_likely_json_g guard s = Ok b.
+Lemma is_likely_json_core_g_ok guard (s : bytes) : 1 <= guard -> exists b, is_likely_json_core_g guard s = Ok b.
 Proof.
-  intros Hg. unfold is_likely_json_g.
+  intros Hg. unfold is_likely_json_core_g.
   destruct (len s <? guard) eqn:E; [eauto|].
   assert (Hl : 1 <= len s) by lia.
   destruct (byte_is_ok s 0 (ch "{")) as [b1 H1]; [lia|].
@@ -63,6 +63,9 @@ Proof.
   unfold and_then, or_else. rewrite H1, H2, H3, H4. cbn [bind].
   destruct b1, b2, b3, b4; cbn [bind]; eauto.
 Qed.
+
+Lemma is_likely_json_g_ok guard (s : bytes) : 1 <= guard -> exists b, is_likely_json_g guard s = Ok b.
+Proof. intros Hg. apply is_likely_json_core_g_ok. exact Hg. Qed.
 
 Theorem is_likely_json_never_panics_lemma :
   forall s : bytes, exists b, is_likely_json s = Ok b.
@@ -74,7 +77,8 @@ Theorem is_likely_json_guard_needed_lemma :
 Proof.
   intros guard; split.
   - intros H. destruct (Z.le_gt_cases 1 guard) as [Hg|Hg]; [exact Hg|].
-    exfalso. apply (H []). unfold is_likely_json_g.
+    exfalso. apply (H []). unfold is_likely_json_g, is_likely_json_core_g.
+    change (trim_space []) with (@nil ascii).
     replace (len (@nil ascii) <? guard) with false by (cbn; lia). reflexivity.
   - intros Hg s. destruct (is_likely_json_g_ok guard s Hg) as [b Hb]. rewrite Hb. discriminate.
 Qed.
@@ -380,21 +384,116 @@ Example script_payload_nonvacuous :
 Proof. vm_compute. repeat split; reflexivity. Qed.
 
 (* ---------------------------------------------------------------------------------------
-   srcset helper *)
-Lemma srcset_loop_ok links acc : exists r, srcset_loop links acc = Ok r.
+   srcsetURLs: every value[i] and value[start:i] is in bounds, each outer iteration consumes at
+   least one byte (the candidate starts at a byte that is neither white space nor a comma, so it
+   is not empty and stays non-empty when its trailing commas are trimmed) *)
+Lemma index_det (v : bytes) i c c' : index v i = Ok c -> index v i = Ok c' -> c = c'.
+Proof. congruence. Qed.
+
+Lemma scan_while_ok fuel P (v : bytes) i :
+  0 <= i <= len v -> (Z.to_nat (len v - i) < fuel)%nat ->
+  exists j, scan_while fuel P v i = Ok j /\ i <= j <= len v
+            /\ (forall c, index v j = Ok c -> P c = false)
+            /\ (forall c, index v i = Ok c -> P c = true -> i < j).
 Proof.
-  revert acc; induction links as [|l r IH]; intros acc; cbn [srcset_loop]; [eauto|].
-  pose proof (split_len_pos (trim_space l) (bs " ")) as Hp.
-  destruct (index_ok (split (trim_space l) (bs " ")) 0) as [u Hu]; try lia.
-  rewrite Hu. cbn [bind]. apply IH.
+  revert i; induction fuel as [|f IH]; intros i Hi Hf; [lia|].
+  cbn [scan_while]. destruct (i <? len v) eqn:E.
+  - destruct (index_ok v i) as [c Hc]; try lia. rewrite Hc. cbn [bind].
+    destruct (P c) eqn:EP.
+    + destruct (IH (i + 1)) as [j [Hj [Hr [H3 H4]]]]; try lia.
+      exists j. repeat split; try assumption; try lia; try (intros; lia).
+    + exists i. repeat split; try lia; intros c' Hc'; inversion Hc'; subst; congruence.
+  - exists i. repeat split; try lia.
+    + intros c Hc. rewrite index_panics in Hc by lia. discriminate.
+    + intros c Hc. rewrite index_panics in Hc by lia. discriminate.
 Qed.
 
-Theorem srcset_never_panics_lemma : forall v : bytes, exists r, srcset_urls v = Ok r.
-Proof. intros v. apply srcset_loop_ok. Qed.
+(* the first element of an in-bounds slice is the element at its lower index *)
+Lemma skipn_nth {A} (l : list A) n c : nth_error l n = Some c -> skipn n l = c :: skipn (S n) l.
+Proof.
+  revert l; induction n as [|n IH]; intros [|a l]; cbn; try discriminate.
+  - intros [= ->]. reflexivity.
+  - intros H. apply IH in H. exact H.
+Qed.
+
+Lemma slice_head (v : bytes) i j c :
+  index v i = Ok c -> i < j -> j <= len v -> exists r, slice v i j = Ok (c :: r).
+Proof.
+  intros Hc Hij Hj. unfold index in Hc.
+  destruct ((0 <=? i) && (i <? len v)) eqn:E; [|discriminate].
+  destruct (nth_error v (Z.to_nat i)) as [c'|] eqn:En; [|discriminate]. injection Hc as ->.
+  unfold slice. replace ((0 <=? i) && (i <=? j) && (j <=? len v)) with true by lia.
+  rewrite (skipn_nth _ _ _ En).
+  replace (Z.to_nat (j - i)) with (S (Z.to_nat (j - i - 1))) by lia.
+  cbn [firstn]. eauto.
+Qed.
+
+Lemma trim_left_keeps cs (l : bytes) a : in_set cs a = false -> trim_left_set cs (l ++ [a]) <> [].
+Proof.
+  intros Ha. induction l as [|x l IH]; cbn [app trim_left_set].
+  - rewrite Ha. discriminate.
+  - destruct (in_set cs x); [exact IH|discriminate].
+Qed.
+
+Lemma trim_right_keeps cs a (r : bytes) : in_set cs a = false -> trim_right_set cs (a :: r) <> [].
+Proof.
+  intros Ha. unfold trim_right_set. cbn [rev].
+  pose proof (trim_left_keeps cs (rev r) a Ha) as H.
+  destruct (trim_left_set cs (rev r ++ [a])) as [|x l]; [congruence|].
+  cbn [rev]. intros Hn. apply (f_equal (@List.length ascii)) in Hn.
+  rewrite app_length in Hn. cbn in Hn. lia.
+Qed.
+
+Definition nonempty (u : bytes) : Prop := u <> [].
+
+Lemma srcset_loop_ok fuel (v : bytes) i acc n :
+  0 <= i <= len v -> (Z.to_nat (len v - i) < fuel)%nat -> Forall nonempty acc ->
+  exists urls m, srcset_loop fuel v i acc n = Ok (urls, m)
+                 /\ n <= m <= n + (len v - i) /\ Forall nonempty urls.
+Proof.
+  revert i acc n; induction fuel as [|f IH]; intros i acc n Hi Hf Hacc; [lia|].
+  cbn [srcset_loop]. cbv zeta.
+  destruct (scan_while_ok (S (List.length v)) ws_or_comma v i Hi) as [i1 [H1 [R1 [P1 _]]]];
+    [unfold len in *; lia|].
+  rewrite H1. cbn [bind].
+  destruct (i1 >=? len v) eqn:E1.
+  { exists acc, n. split; [reflexivity|]. split; [lia|exact Hacc]. }
+  destruct (index_ok v i1) as [c Hc]; try lia.
+  pose proof (P1 c Hc) as Pc. unfold ws_or_comma in Pc.
+  apply Bool.orb_false_iff in Pc. destruct Pc as [Pws Pcomma].
+  destruct (scan_while_ok (S (List.length v)) not_ws v i1) as [i2 [H2 [R2 [_ Q2]]]];
+    [lia|unfold len in *; lia|].
+  rewrite H2. cbn [bind].
+  assert (Hlt : i1 < i2) by (apply (Q2 c Hc); unfold not_ws; rewrite Pws; reflexivity).
+  destruct (slice_head v i1 i2 c Hc Hlt) as [r Hs]; [lia|].
+  rewrite Hs. cbn [bind].
+  destruct (has_suffix (c :: r) [ch ","]).
+  - destruct (IH i2 (acc ++ [trim_right_set [ch ","] (c :: r)]) (n + 1)) as [urls [m [Hm [Hb Hn]]]]; try lia.
+    { apply Forall_app. split; [exact Hacc|]. constructor; [|constructor].
+      apply trim_right_keeps. cbn [in_set existsb]. rewrite Pcomma. reflexivity. }
+    exists urls, m. split; [exact Hm|]. split; [lia|exact Hn].
+  - destruct (scan_while_ok (S (List.length v)) not_comma v i2) as [i3 [H3 [R3 _]]];
+      [lia|unfold len in *; lia|].
+    rewrite H3. cbn [bind].
+    destruct (IH i3 (acc ++ [c :: r]) (n + 1)) as [urls [m [Hm [Hb Hn]]]]; try lia.
+    { apply Forall_app. split; [exact Hacc|]. constructor; [discriminate|constructor]. }
+    exists urls, m. split; [exact Hm|]. split; [lia|exact Hn].
+Qed.
+
+Theorem srcset_never_panics_lemma :
+  forall v : bytes, exists urls steps,
+    srcset_urls_steps v = Ok (urls, steps) /\ 0 <= steps <= len v /\ Forall (fun u => u <> []) urls.
+Proof.
+  intros v. unfold srcset_urls_steps. pose proof (len_nonneg v).
+  destruct (srcset_loop_ok (S (List.length v)) v 0 [] 0) as [urls [m [Hm [Hb Hn]]]];
+    [lia|unfold len; lia|constructor|].
+  exists urls, m. split; [exact Hm|]. split; [lia|exact Hn].
+Qed.
 
 Example srcset_nonvacuous :
-  srcset_urls (bs "a.png 1x, b.png 2x,") = Ok [bs "a.png"; bs "b.png"; []].
-Proof. vm_compute. reflexivity. Qed.
+  srcset_urls (bs "a.png 1x, b,c.png 2x,d.png,,  e.png") = Ok [bs "a.png"; bs "b,c.png"; bs "d.png"; bs "e.png"]
+  /\ srcset_urls (bs " , ,") = Ok [] /\ srcset_urls [] = Ok [].
+Proof. vm_compute. repeat split; reflexivity. Qed.
 
 (* ---------------------------------------------------------------------------------------
    ina.extractJWPlayerVersion CAN panic (index 1 of a one-element Split); the function has no
